@@ -172,6 +172,21 @@ def run_call(job, tmp):
 
 
 def run_one(job, tmp):
+    if job.get("debug"):
+        # the same operation with the jasm logger at DEBUG level (as `jasm --debug`): what is logged must not change what is done
+        import logging
+        lg = logging.getLogger("jasm.logging_config")
+        old_level, old_disable = lg.level, logging.root.manager.disable
+        logging.disable(logging.NOTSET)
+        lg.setLevel(logging.DEBUG)
+        nh = logging.NullHandler()
+        lg.addHandler(nh)
+        try:
+            return run_one(dict(job, debug=False), tmp)
+        finally:
+            lg.removeHandler(nh)
+            lg.setLevel(old_level)
+            logging.disable(old_disable)
     k = job.get("kind")
     if k == "call":
         return run_call(job, tmp)
